@@ -36,6 +36,9 @@ fixed("FX-C10-02", "C10", "224a224", "race build: nested setsMu.RLock through Fi
 fixed("FX-C08-01", "C08", "fae98e2", "Interface op inside recursive code had Length 0: callee frame overlapped the caller's return slots (struct{A,B,C,D int; M map[string]interface{}; R *Self})")
 fixed("FX-C01-01", "C01", "fae98e2", "same frame overlap seen as a crash/garbled output in the encoding/json differential")
 
+fixed("FX-C13-01", "C13", "fdd90a3", "MarshalIndent of struct{A int; N *Self} nested 4 deep emitted 165 KB of indentation (saved BaseIndent slot of the recursive frame overlapped the callee's slot 0; slot monitor rule R2)")
+fixed("FX-C08-02", "C08", "fdd90a3", "same overlap seen by the slot-ownership monitor: R2 frame read slot last written by a later frame in vm_indent")
+
 # ------------------------------------------------------------------ C05
 ALL15 = r"(Valid|Unmarshal:.+|Decode:.+)"
 STREAM = r"(Valid|Decode:.+)"
@@ -131,6 +134,54 @@ known("KF-C18-07", "C18", "util-htmlesc", "HTMLEscape", "not-equivalent", r"obje
       "other re-ordering of members by HTMLEscape", "needs a token-level escaper instead of decode/encode")
 known("KF-C18-08", "C18", "util-htmlesc", "HTMLEscape", "not-equivalent", r"output-empty:float64-range-number",
       'HTMLEscape(dst, "1e999") writes nothing', "json.go HTMLEscape: decode error is swallowed", "empty output for other texts with out-of-range numbers", "as KF-C18-07")
+
+# ------------------------------------------------------------------ C01 (encoder differential)
+WILD = r"(token:.+|panic:.+|fatal:.+|checkptr:.+|asan:.+|array-len|missing-member|extra-member|ok-vs-err|err-vs-ok|marshaler-output-differs|excessive-allocation|malformed-output|order:other)"
+def enc_features(prop, monitor, pfx):
+    E = None
+    known(pfx + "-ORDER", prop, monitor, E, r"order:by-escaped-key", r".*",
+          'map keys "\u2028x" and "true": go-json emits "\u2028x" first', "internal/encoder/vm*/vm.go OpMapEnd: members are sorted by the already escaped key bytes (a backslash sorts before letters)",
+          "another mis-ordering that is exactly the order of the escaped keys", "sorting happens after key encoding in all four interpreters")
+    known(pfx + "-PTR2", prop, r"(%s|process)" % monitor, E, WILD, r".* @ feature:ptr2\+",
+          'Marshal(&&map[uint8]int16{..}) reads a garbage map header (fatal out of memory); ***RawMessage, **T behind fields give null/garbage',
+          "internal/encoder/compiler.go: pointer chains of depth >= 2 are flattened with a wrong indirection count for map/marshaler/bytes/string/int bases",
+          "any other defect that only shows on types containing a pointer of depth >= 2", "needs a redesign of ptr-head opcodes across the four generated interpreters")
+    known(pfx + "-ARR1", prop, r"(%s|process)" % monitor, E, WILD, r".* @ feature:array1-ptr-shaped-elem",
+          '[1]*uintptr{&x} SIGSEGV; [1]*uintptr{nil} -> null instead of [null]', "internal/encoder/compiler.go: one-element arrays of pointer-shaped elements are treated as indirect values",
+          "any other defect that only shows on [1]ptr-shaped arrays", "same opcode redesign")
+    known(pfx + "-PSTRUCT", prop, r"(%s|process)" % monitor, E, WILD, r".* @ feature:struct-ptr-shaped",
+          'struct{P *int} in element/field position: nil dereference or null instead of {"P":null}', "internal/encoder/compiler.go: single-pointer-field structs are represented by the pointer itself and mis-indirected in some positions",
+          "any other defect that only shows on pointer-shaped structs", "same opcode redesign")
+    known(pfx + "-MAPKEY", prop, r"(%s|process)" % monitor, E, WILD, r".* @ feature:mapkey-marshaler",
+          'map[*TP]int: key text built from a wrong address (tp<garbage>) or fatal OOM; map[TVS]int uses MarshalText where encoding/json uses the string', "internal/encoder/compiler.go mapKeyCode / vm OpMapKey: TextMarshaler keys",
+          "any other defect on maps whose key type implements TextMarshaler", "needs key encoding through reflect like encoding/json")
+    known(pfx + "-A0OMIT", prop, monitor, E, r"extra-member:omitempty-array0", r"field\[omitempty.*\]:array0.*",
+          'struct{D [0]float64 `json:"q,omitempty"`} -> {"q":[]}', "internal/encoder/compiler.go: omitempty emptiness test for arrays ignores len 0", "nothing else (predicate is exact)", "low value")
+    known(pfx + "-EMB", prop, r"(%s|process)" % monitor, E, r"(missing-member|extra-member|panic:nil-deref|token:.+)", r".* @ feature:embedded-(conflicts|structof)",
+          'EmbShadow{EmbDeep; A string; *EmbInner2}: member F of the embedded EmbDeep is dropped', "internal/encoder/compiler.go filterDuplicatedFields / anonymous struct handling differs from encoding/json dominance rules; nil embedded pointer dereferenced",
+          "other member-set differences on structs with embedded fields", "field dominance logic is spread over compiler and decoder")
+    known(pfx + "-MPVAL", prop, monitor, E, r"token:o->[as]", r".* @ feature:(marshalerP-by-value|tags-zoo)",
+          '[3]MP{...} (pointer-receiver MarshalJSON, unaddressable elements): go-json calls the method, encoding/json encodes the struct', "internal/encoder/compiler.go: pointer-receiver marshalers are used on values that encoding/json treats as unaddressable",
+          "other o->a / o->s token differences on by-value pointer-receiver marshalers", "addressability is not tracked by the opcode compiler")
+    known(pfx + "-NILMV", prop, monitor, E, r"(token:o->z|panic:nil-deref)", r".* @ feature:nilable-marshalerV",
+          'nil MVM (map kind, value-receiver MarshalJSON) -> null instead of calling the method', "internal/encoder/vm: nil check precedes the marshaler call for map/slice kinds", "same symptom on nilable value-receiver marshalers", "behavioural difference kept upstream")
+    known(pfx + "-OMITM", prop, monitor, E, r"extra-member", r"field\[omitempty.*\]:(text)?marshaler.* @ feature:(omitempty-marshaler|tags-zoo)",
+          'struct{OM TVI `json:"om,omitempty"`}{0} -> {"om":"k0"}', "internal/encoder/compiler.go: omitempty is not applied by kind to fields whose type implements a marshaler",
+          "other kept-although-empty marshaler fields", "would need kind-based emptiness test before the marshaler opcode")
+    known(pfx + "-PTRM", prop, monitor, E, r"(token:z->[sao]|token:[sao]->z|panic:.+)", r".* @ feature:ptr-to-marshaler",
+          '[2]*TVI{nil,...} -> "" instead of null; nil *TP at top level -> empty output', "internal/encoder/vm AppendMarshalText/JSON call sites: nil pointers to marshaler types",
+          "other nil-pointer-to-marshaler differences", "nil handling differs per opcode family")
+    known(pfx + "-STRS", prop, monitor, E, r"token:string-content", r".* @ feature:(string-opt-float-or-string|tags-zoo)",
+          'struct{S string `json:",string"`}: quoting of the quoted string differs', "internal/encoder string-tag handling of string fields", "other content differences of ,string string fields", "rare option")
+    known(pfx + "-TAGS", prop, monitor, E, r"(extra-member|missing-member)", r".* @ feature:tags-zoo",
+          'zoo.TagsMarsh: omitempty on marshaler-typed fields (see OMITM)', "see OMITM", "member-set differences on the Tags zoo types", "see OMITM")
+    known(pfx + "-BADNUM", prop, monitor, E, r"ok-vs-err", r"ref-error:invalid-number @ feature:val:bad-number",
+          'json.Number(".5"), "-", "01", "1e" are emitted verbatim', "internal/encoder AppendNumber checks characters, not grammar", "other ill-formed json.Number accepted", "shares the lenient scanner")
+    known(pfx + "-BADRAW", prop, monitor, E, r"ok-vs-err", r"ref-error:marshaler @ feature:val:bad-raw",
+          'RawMessage("01") is emitted', "internal/encoder compact (used to validate RawMessage/Marshaler output) is lenient (see KF-C18-01..04)", "other ill-formed RawMessage accepted", "see KF-C18-01")
+    known(pfx + "-NONFIN", prop, monitor, E, r"ok-vs-err", r"ref-error:unsupported-value @ feature:val:nonfinite",
+          'float32(NaN) -> NaN, +Inf', "internal/encoder/vm OpFloat32*: no IsNaN/IsInf check (OpFloat64* have it)", "other non-finite float32 emitted", "4 interpreters x many opcodes")
+enc_features("C01", "enc-diff", "KF-C01")
 
 json.dump({"comment": "generated by tools/gen_known.py; never written at check time", "findings": F},
           open(os.path.join(os.path.dirname(os.path.abspath(__file__)), "..", "known_findings.json"), "w"), indent=1, ensure_ascii=False)
